@@ -21,6 +21,7 @@ import Mathlib.Algebra.Order.Field.Basic
 import TsdateVerif.Proofs.DiscreteFinal
 import TsdateVerif.Proofs.DiscretePostExact
 import TsdateVerif.Proofs.DiscreteHomPass
+import TsdateVerif.Proofs.DiscreteNonneg
 
 namespace Tsdate.C10
 open Tsdate Tsdate.Discrete
@@ -214,6 +215,28 @@ theorem posterior_exact (pow : α → α → α) (hpow : ∀ v, pow 1 v = v) (in
   posterior_exact_lin (linOps pow) (linOps_isLinOut pow hpow) inp stdIn stdOut order zero hok hoo hfrac
     hroots hd hInn hLnn hnorm
 
+
+
+/-- **The non-negativity hypothesis of `posterior_exact` follows from the inputs**: with non-negative
+prior rows and likelihood tables and positive denominators, every inside row is non-negative. -/
+theorem inside_rows_nonneg (pow : α → α → α) (hpow : ∀ v, pow 1 v = v) (inp : Input α) (std : Bool)
+    (hok : singleTreeOK inp = true)
+    (hfrac : ∀ e ∈ inp.edges, aget inp.frac e.id = 1)
+    (hd : ∀ g ∈ groupRuns (·.p) inp.edges, 0 < aget (insidePass (linOps pow) inp std).1.denom g.1)
+    (hp : ∀ g ∈ groupRuns (·.p) inp.edges, ∀ t, t < inp.G → 0 ≤ inp.toTreeModel.prior g.1 t)
+    (hLnn : ∀ e ∈ inp.edges, ∀ a b, a < inp.G → b ≤ a → 0 ≤ inp.toTreeModel.lik e a b) :
+    ∀ g ∈ groupRuns (·.p) inp.edges, ∀ b, b < inp.G →
+      0 ≤ aget (aget (insidePass (linOps pow) inp std).1.inside g.1) b := by
+  obtain ⟨_, _, hflat, hedge, tree, _, _⟩ :=
+    single_tree_facts (linOps pow) (linOps_isLin pow hpow) inp std hok hfrac
+      (fun g hg => ne_of_gt (hd g hg))
+  exact inside_nonneg inp.G _ _ _ _ _ _ tree hd hp (by rw [hflat]; exact hLnn)
+    (by
+      intro e he
+      rw [hflat] at he
+      by_cases hf : aget inp.fixed e.c = true
+      · exact Or.inl hf
+      · exact Or.inr (hedge e he (by simpa using hf)).2)
 
 /-- **Both probability spaces.**  Let `ol` be any operation record carried to `linOps pow` by `E`
 (C12: `logOps` with `E = exp`).  Running the passes with `ol` on `inp` and mapping the results through
